@@ -32,6 +32,11 @@ struct rep {
 	char value[32];
 };
 static struct rep replica[NP];
+/* Canonicalisation for the merged search: for colliding paths the slot an element occupies in the path index depends on
+ * how many colliding elements were alive when it was inserted, and that layout decides the future (displacement, hop
+ * bitmap updates on remove).  It is therefore part of the merged state although the reference map does not contain it. */
+static int slot_hint[NP];
+static bool colliding_universe;
 
 static char fillernames[8][16];
 static int nfill;
@@ -198,6 +203,19 @@ static int count_routed_new(int cid, int from)
 	return n;
 }
 
+static void note_slot_hint(int pi)
+{
+	int n = 0;
+	if (colliding_universe) {
+		for (int i = 0; i < NP; i++) {
+			if (i != pi && model[i].exists) {
+				n++;
+			}
+		}
+	}
+	slot_hint[pi] = n;
+}
+
 static void apply(int peer, int op, int pi)
 {
 	static char namebuf[80];
@@ -300,10 +318,12 @@ static void apply(int peer, int op, int pi)
 		case OP_ADD_STATE:
 		case OP_ADD_FETCHONLY:
 			*e = (struct el){.exists = true, .owner = peer, .is_method = false, .fetch_only = op == OP_ADD_FETCHONLY};
+			note_slot_hint(pi);
 			snprintf(e->value, sizeof(e->value), "%s", val);
 			break;
 		case OP_ADD_METHOD:
 			*e = (struct el){.exists = true, .owner = peer, .is_method = true};
+			note_slot_hint(pi);
 			break;
 		case OP_REMOVE:
 			e->exists = false;
@@ -381,7 +401,7 @@ static uint64_t model_hash(int remaining)
 {
 	uint64_t h = (uint64_t)remaining + 3;
 	for (int i = 0; i < NP; i++) {
-		h = hash_mix(h, model[i].exists ? (uint64_t)(1 + model[i].owner + 2 * model[i].is_method + 4 * model[i].fetch_only) : 0);
+		h = hash_mix(h, model[i].exists ? (uint64_t)(1 + model[i].owner + 2 * model[i].is_method + 4 * model[i].fetch_only + 8 * slot_hint[i]) : 0);
 	}
 	h = hash_mix(h, (uint64_t)(stepno % 6));
 	return h;
@@ -392,6 +412,7 @@ static void run(void)
 	int depth = (int)xp_param("depth", 3);
 	int set = (int)xp_param("pathset", 0);
 	choose_paths(set);
+	colliding_universe = set == 2;
 	struct sim_opts o = {0};
 	jx_boot(&o);
 	O = jx_open(CL_RAW);
@@ -423,6 +444,13 @@ static void run(void)
 	/* the observer's own filler elements are outside the universe: forget their notifications */
 	seenO = clients[O].nmsgs;
 	struct bytebuf trail = {0};
+	/* non-initial start state: all three paths of the universe exist (added by A in index order) */
+	if (xp_param("preadd", 0)) {
+		for (int pi = 0; pi < NP; pi++) {
+			apply(A, pi == 1 ? OP_ADD_METHOD : OP_ADD_STATE, pi);
+		}
+		bb_printf(&trail, "[all three paths added by A] ");
+	}
 	for (int d = 0; d < depth; d++) {
 		int c = xp_choose(NPEER * NOP * NP, XP_ACTION, "action");
 		int peer = c / (NOP * NP), op = (c / NP) % NOP, pi = c % NP;
